@@ -34,19 +34,19 @@ COMPONENTS: dict[str, Any] = {
 }
 
 PROP_POS = ("prop_req", "prop_opt", "top_use")
-ALL_POS = ("prop_req", "prop_opt", "param_req", "param_opt", "body_req", "body_opt", "resp", "respsvc", "top_use")
+ALL_POS = ("prop_req", "prop_opt", "param_req", "param_opt", "body_req", "body_opt", "resp", "respsvc", "top_use", "alias_def")
 
 
 def conc(sh: dict[str, Any]) -> dict[str, Any]:
     """Abstract shape (specs/TypeResolve.tla vocabulary) -> OpenAPI schema object."""
-    k, a, of = sh["k"], sh["a"], sh["of"]
+    k, a, f, of = sh["k"], sh["a"], sh["f"], sh["of"]
     if k == "prim":
-        t, _, f = a.partition(":")
-        base: dict[str, Any] = {"type": t}
+        base: dict[str, Any] = {"type": a}
         if f:
             base["format"] = f
     elif k == "enum":
-        base = {"string": {"type": "string", "enum": ["a", "b"]}, "integer": {"type": "integer", "enum": [1, 2]}, "boolean": {"type": "boolean", "enum": [True]}}[a]
+        vals = f.split(",")
+        base = {"type": a, "enum": vals if a == "string" else [int(v) for v in vals] if a == "integer" else [v == "True" for v in vals]}
     elif k == "any":
         base = {}
     elif k == "object":
@@ -74,21 +74,37 @@ def conc(sh: dict[str, Any]) -> dict[str, Any]:
         return {"anyOf": [base, {"type": "null"}]}
     if nul == "oneOfNull":
         return {"oneOf": [base, {"type": "null"}]}
+    if nul == "member":
+        return {k: base[k] + [{"type": "null"}]}
     raise ValueError(nul)
 
 
 def uses31(sh: dict[str, Any]) -> bool:
-    return sh["nul"] in ("type31", "anyOfNull", "oneOfNull") or any(uses31(c) for c in sh["of"])
+    return sh["nul"] in ("type31", "anyOfNull", "oneOfNull", "member") or any(uses31(c) for c in sh["of"])
 
 
 def has_self(sh: dict[str, Any]) -> bool:
     return (sh["k"] == "ref" and sh["a"] == "Self") or any(has_self(c) for c in sh["of"])
 
 
+DEPENDS = {"Pets": ["Pet"], "Either": ["Pet", "Color"]}
+
+
+def refs_of(sh: dict[str, Any], out: set[str] | None = None) -> set[str]:
+    out = set() if out is None else out
+    if sh["k"] == "ref" and sh["a"] != "Self":
+        out.add(sh["a"])
+        out.update(DEPENDS.get(sh["a"], []))
+    for c in sh["of"]:
+        refs_of(c, out)
+    return out
+
+
 def document(sh: dict[str, Any], positions: list[str]) -> dict[str, Any]:
-    """One document carrying the shape at every requested position."""
+    """One document carrying the shape at every requested position (and the named components it refers to)."""
     s = conc(sh)
-    schemas = json.loads(json.dumps(COMPONENTS))
+    need = refs_of(sh)
+    schemas = {k: json.loads(json.dumps(v)) for k, v in COMPONENTS.items() if k in need}
     props: dict[str, Any] = {"z": {"type": "string"}}
     req = []
     if "prop_req" in positions:
@@ -96,7 +112,7 @@ def document(sh: dict[str, Any], positions: list[str]) -> dict[str, Any]:
         req.append("fr")
     if "prop_opt" in positions:
         props["fo"] = s
-    if "top_use" in positions:
+    if "top_use" in positions or "alias_def" in positions:
         schemas["Top"] = s
         props["tr"] = {"$ref": R + "Top"}
         req.append("tr")
@@ -119,3 +135,125 @@ def document(sh: dict[str, Any], positions: list[str]) -> dict[str, Any]:
     if uses31(sh):
         doc["openapi"] = "3.1.0"
     return doc
+
+
+# ------------------------------------------------------------------------------------------------ the check
+def hsig(positions: list[str]) -> str:
+    keys = ["z"] + [k for p, k in (("prop_req", "fr"), ("prop_opt", "fo"), ("top_use", "tr")) if p in positions]
+    if "alias_def" in positions and "tr" not in keys:
+        keys.append("tr")
+    return ",".join(sorted(keys))
+
+
+DESIGN_INVARIANTS = ("IdealTotal", "IdealNoDoubleOptional", "IdealSound", "IdealTight", "AsIsTotal", "AsIsNoDoubleOptional", "AsIsImportsClosed", "ImportGapIsReal", "AsIsSoundOutsideGap", "GapIsReal")
+
+
+def label(sh: dict[str, Any]) -> str:
+    """Short printable form of a shape (evidence samples, drift notes)."""
+    k = sh["k"]
+    inner = ",".join(label(c) for c in sh["of"])
+    core_ = {"prim": sh["a"] + (":" + sh["f"] if sh["f"] else ""), "enum": f"enum<{sh['a']}>", "any": "{}", "object": "object{" + sh["a"] + "}", "array": f"array<{inner}>",
+             "map": "map<" + (inner or "true") + ">", "ref": "$" + sh["a"]}.get(k, f"{k}<{inner}>")
+    return core_ + ("" if sh["nul"] == "no" else "?" + sh["nul"])
+
+
+def run(chk: core.Check) -> None:
+    tier = chk.tier
+    consts = f'CONSTANT Tier = "{tier}"\n'
+    # (A) design level
+    mc = core.run_tlc(chk.scratch, "MC_TypeResolve", "SPECIFICATION Spec\n" + consts + "".join(f"INVARIANT {i}\n" for i in DESIGN_INVARIANTS) + "CHECK_DEADLOCK FALSE\n", workers=8, timeout=900)
+    chk.add_tlc("MC_TypeResolve[design]", mc)
+    # -coverage triples the cost of this run (deep recursive operators); vacuity is refused by counting instead: every
+    # (shape, entry point) is a state, and the states inside the two exemptions (Gap, ImportGap) print one line each
+    gaps = mc.printed.get("GAP", [])
+    chk.cov["design_gap_states"] = {k: sum(1 for x in gaps if x["gap"] == k) for k in ("sound", "imports")}
+    chk.require(mc.distinct > 1500 and all(chk.cov["design_gap_states"].values()), "vacuous MC_TypeResolve run")
+    chk.cov["design_invariants"] = list(DESIGN_INVARIANTS)
+    # (B) scenarios
+    g = core.run_tlc(chk.scratch, "Gen_TypeResolve", "SPECIFICATION GSpec\n" + consts + "CHECK_DEADLOCK FALSE\n", workers=4, timeout=600)
+    chk.add_tlc("Gen_TypeResolve", g)
+    scen = sorted(g.printed.get("SCEN", []), key=lambda s: json.dumps(s, sort_keys=True))
+    chk.require(len(scen) > 300, "Gen_TypeResolve emitted too few shapes")
+    jobs = [{"id": f"s{i}", "shape": s["shape"], "positions": s["positions"], "hsig": hsig(s["positions"])} for i, s in enumerate(scen)]
+    res = core.parallel_py(chk.scratch, "harness.w_typeresolve", jobs, nproc=min(10, core.NCPU))
+    # a document that does not load / emit as a whole is retried one position at a time, so that the failure is
+    # attributed to the position that causes it
+    recs: list[dict[str, Any]] = []
+    retry = []
+    for j, r in zip(jobs, res):
+        if r["recs"] and r["recs"][0]["stage"] in ("load", "emit"):
+            for p in j["positions"]:
+                if p != "alias_def":
+                    ps = [p] + (["alias_def"] if p == "top_use" and "alias_def" in j["positions"] else [])
+                    retry.append({"id": f"{j['id']}.{p}", "shape": j["shape"], "positions": ps, "hsig": hsig(ps)})
+        else:
+            recs.extend(r["recs"])
+    if retry:
+        for r in core.parallel_py(chk.scratch, "harness.w_typeresolve", retry, nproc=min(10, core.NCPU)):
+            recs.extend(r["recs"])
+    chk.cov["documents"] = len(jobs) + len(retry)
+    chk.cov["documents_retried_per_position"] = len(retry)
+    recs = [r for r in recs if r["stage"] != "skip"]
+    judge(chk, recs)
+    chk.cov["rule"] = f"every shape of Shapes({tier}) (leaves x formats x nullable spellings, arrays / maps / unions / allOf over them, depth 2 sample) at every applicable position"
+    chk.cov["exhaustive"] = True
+
+
+def judge(chk: core.Check, recs: list[dict[str, Any]]) -> None:
+    # (C) TLC judges every record
+    tf = chk.scratch.sub("traces") / "traces.ndjson"
+    with open(tf, "w") as f:
+        for r in recs:
+            f.write(json.dumps({k: v for k, v in r.items() if k not in ("uses", "stage")}) + "\n")
+    m = core.run_tlc(chk.scratch, "Trace_TypeResolve", "SPECIFICATION Spec\nCHECK_DEADLOCK FALSE\n", workers=8, env={"TRACE_FILE": str(tf)}, timeout=900)
+    chk.add_tlc("Trace_TypeResolve", m)
+    verdicts = {v["id"]: v for v in m.printed.get("VERDICT", [])}
+    chk.require(len(verdicts) == len(recs), f"monitor judged {len(verdicts)} of {len(recs)} records")
+    chk.cov["traces_validated_against_impl"] += len(recs)
+    loose: dict[str, int] = {}
+    drift: dict[str, list[str]] = {}
+    for r in recs:
+        v = verdicts[r["id"]]
+        sh = r["shape"]
+        chk.count()
+        chk.nontrivial({"s": label(sh), "p": r["pos"]})
+        total_ok = "X04.Total" not in v["failing"]
+        for c in ("X04.Total",) + (("X04.NoDoubleOptional", "X04.Imports", "X04.Evaluable", "X04.Stable", "X04.Sound") if total_ok else ()):
+            chk.clause(c)
+        base = {"pos": r["pos"], "kind": sh["k"], "nul": sh["nul"]}
+        scenario = {"shape": sh, "label": label(sh), "pos": r["pos"], "id": r["id"]}
+        detail = json.dumps({"why": v["why"], "ann": r["ann"], "exc": r["exc"], "imps": r["imps"], "probe": r["probe"], "again": r["again"], "env": [[e["name"], e["def"], e["sig"]] for e in r["env"]]})
+        for c in v["failing"]:
+            if c == "X04.Total":
+                locus = {**base, "exc": r["exc"], "parse": r["parse"]}
+            elif c == "X04.Sound":
+                # lost = the admitted JSON value that cannot be typed, via = the container it sits in (top | elem | val)
+                path = v["why"].split(".")
+                locus = {**base, "lost": path[-1], "via": path[-2] if len(path) > 1 else "top", "got": v["got"], "ir_nullable": bool(r["ir"] and r["ir"][0]["nul"])}
+            elif c == "X04.Imports":
+                locus = {**base, "unbound": sorted(v["unbound"]), "probe": r["probe"]}
+            elif c == "X04.Evaluable":
+                locus = {**base, "probe": r["probe"]}
+            elif c == "X04.Stable":
+                locus = {**base, "emitted_differs": any(a.startswith("EMITTED:") for a in r["again"]), "imports_differ": not r["imps_again"], "mutated": r["mutated"]}
+            else:
+                locus = dict(base)
+            chk.fail(c, locus, scenario, detail)
+        if total_ok and not v["tight"]:
+            loose[f"{r['pos']}:{sh['k']}"] = loose.get(f"{r['pos']}:{sh['k']}", 0) + 1
+        if v["drift"] != "none":
+            drift.setdefault(f"{r['pos']} {v['drift'].split(':')[0]}", []).append(f"{label(sh)} real={r['ann']!r} model={v['drift']!r}")
+        nf = sum(1 for x in chk.cov["samples"] if x["failing"])
+        if total_ok and sh["k"] in ("array", "oneOf", "map", "ref") and ((v["failing"] and nf < 2) or (not v["failing"] and len(chk.cov["samples"]) - nf < 4)):
+            chk.sample({"shape": label(sh), "pos": r["pos"], "annotation": r["ann"], "imports": r["imps"], "failing": v["failing"]})
+    chk.cov["tight_notes"] = {"annotation_is_Any_for_a_specific_schema": dict(sorted(loose.items()))}
+    for k, lst in sorted(drift.items()):
+        chk.note_drift(f"as-is resolver of TypeResolve.tla disagrees with the code at {k}: {len(lst)} record(s), e.g. {lst[0]}")
+
+
+def replay(chk: core.Check, path: str) -> None:
+    rp = json.load(open(path))
+    sc = rp["scenario"]
+    pos = [sc["pos"]] + (["top_use"] if sc["pos"] == "alias_def" else [])
+    res = core.parallel_py(chk.scratch, "harness.w_typeresolve", [{"id": "replay", "shape": sc["shape"], "positions": pos, "hsig": hsig(pos)}], nproc=1)
+    judge(chk, [r for r in res[0]["recs"] if r["stage"] != "skip" and r["pos"] == sc["pos"]])
